@@ -193,3 +193,26 @@ M("C18", "C18-COUNT", TJ, "            data, self.prior.poly_trend, self.prior.n
 T("C18", PR, "                    f\"Missing prior for parameter '{name}': you must specify a prior \"", "                    f\"No prior for parameter '{name}': you must specify a prior \"", "message text changed")
 T("C18", PR, "            if not isinstance(\n                p.owner.op, pt.random.op.RandomVariable\n            ) or p.owner.op._print_name[0] not in [\"Normal\", \"FixedCompanionMass\"]:", "            if not (isinstance(p.owner.op, pt.random.op.RandomVariable) and p.owner.op._print_name[0] in [\"Normal\", \"FixedCompanionMass\"]):", "De Morgan")
 T("C18", DH, "    if (len(np.unique(ids)) - 1) != n_offsets:", "    if len(np.unique(ids)) != n_offsets + 1:", "rearranged count comparison")
+
+# ---------------------------------------------------------------- C12
+M("C12", "C12-DISPATCH", UT, "        idx = rng.choice(f.root[path].shape[0], size=size, replace=False)\n", "        idx = rng.choice(f.root[path].shape[0], size=size, replace=True)\n", "random batch with repeats")
+M("C12", "C12-DISPATCH", UT, "            prior_samples_file, columns, slice(*slice_or_idx), units=units\n", "            prior_samples_file, columns, slice(slice_or_idx[0]), units=units\n", "tuple (a, b) read as [:a]")
+M("C12", "C12-DISPATCH", UT, "    elif isinstance(slice_or_idx, np.ndarray):\n        # read a random batch of samples of size \"slice_or_idx\"\n        batch = read_batch_idx(prior_samples_file, columns, slice_or_idx, units=units)\n\n", "", "index-array branch deleted")
+M("C12", "C12-DISPATCH", UT, "        batch = read_batch_slice(prior_samples_file, columns, slice_or_idx, units=units)\n", "        batch = read_batch_slice(prior_samples_file, columns, slice_or_idx)\n", "slice branch drops the unit conversion")
+T("C12", UT, "    if isinstance(slice_or_idx, tuple):\n        # read a contiguous batch of prior samples\n        batch = read_batch(\n            prior_samples_file, columns, slice(*slice_or_idx), units=units\n        )\n\n    elif isinstance(slice_or_idx, slice):\n        # read a contiguous batch of prior samples\n        batch = read_batch_slice(prior_samples_file, columns, slice_or_idx, units=units)\n",
+  "    if isinstance(slice_or_idx, slice):\n        # read a contiguous batch of prior samples\n        batch = read_batch_slice(prior_samples_file, columns, slice_or_idx, units=units)\n\n    elif isinstance(slice_or_idx, tuple):\n        # read a contiguous batch of prior samples\n        batch = read_batch(\n            prior_samples_file, columns, slice(*slice_or_idx), units=units\n        )\n", "branches reordered")
+M("C12", "C12-COL", UT, "            batch[:, i] = f.root[path].read_coordinates(idx, field=name)\n", "            batch[:, i] = f.root[path].read_coordinates(idx, field=columns[0])\n", "every column filled from the first field")
+M("C12", "C12-COL", UT, "            batch[:, i] = f.root[path].read_coordinates(idx, field=name)\n", "            batch[:, 0] = f.root[path].read_coordinates(idx, field=name)\n", "every field written to column 0")
+M("C12", "C12-COL", UT, "            arr = f.root[path].read(slice.start, slice.stop, slice.step, field=name)\n", "            arr = f.root[path].read(slice.start, slice.stop, field=name)\n", "slice step dropped")
+M("C12", "C12-COL", UT, "    batch = np.zeros((len(idx), len(columns)))\n    with tb.open_file(prior_samples_file, mode=\"r\") as f:\n        for i, name in enumerate(columns):\n            batch[:, i] = f.root[path].read_coordinates(idx, field=name)\n",
+  "    batch = np.zeros((len(idx), len(columns)))\n    order = np.argsort(idx)\n    with tb.open_file(prior_samples_file, mode=\"r\") as f:\n        for i, name in enumerate(columns):\n            arr = f.root[path].read_coordinates(idx[order], field=name)\n            batch[:, i] = arr[order]\n", "sorted read restored with the wrong permutation (seeded C12-A / C05-A)")
+M("C12", "C12-COL", UT, "            for i, name in enumerate(columns):\n                if name in units:\n                    batch[:, i] *= table_units[name].to(units[name])\n\n    return batch\n\n\ndef read_random_batch", "            for i, name in enumerate(columns):\n                if name in units:\n                    batch[:, i] *= units[name].to(table_units[name])\n\n    return batch\n\n\ndef read_random_batch", "conversion factor inverted (index reader)")
+M("C12", "C12-COL", UT, "def table_header_to_units(header_dataset):", "import functools\n\n\n@functools.lru_cache(maxsize=8)\ndef table_header_to_units(header_dataset):", "header units memoised")
+M("C12", "C12-REFUSE", SH, "        if not _custom_tbl_dtype_compare(\n            existing_header[\"datatype\"], this_header[\"datatype\"]\n        ):\n            raise ValueError(", "        if not _custom_tbl_dtype_compare(\n            existing_header[\"datatype\"], this_header[\"datatype\"]\n        ):\n            warnings.warn(", "dtype mismatch only warns")
+M("C12", "C12-REFUSE", SH, "    metadata_conflicts=\"error\",\n    **create_dataset_kwargs,\n):", "    metadata_conflicts=\"warn\",\n    **create_dataset_kwargs,\n):", "conflict policy default 'warn' not forwarded by the recursion (seeded C12-B)")
+M("C12", "C12-REFUSE", SH, "    if len(dtype1) != len(dtype2):\n        return False\n\n", "", "column-count comparison removed (reverse of fix)")
+M("C12", "C12-REFUSE", SH, "        # If we got here, we can now try to append:\n        current_size = len(output_group[name])\n        output_group[name].resize((current_size + len(table),))\n", "", "resize removed / moved")
+M("C12", "C12-REFUSE", SH, "        # Now compare datatype of this object and on disk\n        this_header", "        current_size0 = len(output_group[name])\n        output_group[name].resize((current_size0 + len(table),))\n        # Now compare datatype of this object and on disk\n        this_header", "dataset resized before the dtype check")
+M("C12", "C12-PATHS", SM, "                serialize_meta=True,\n", "                serialize_meta=False,\n", "metadata not serialised")
+M("C12", "C12-PATHS", SM, "                        tbl.meta[\"__t_ref_bmjd\"], format=\"mjd\", scale=\"tcb\"\n", "                        tbl.meta[\"__t_ref_bmjd\"], format=\"mjd\"\n", "FITS epoch read back without the TCB scale (seeded C04-B)")
+M("C12", "C12-PATHS", SM, "        return cls(samples=tbl, **tbl.meta)", "        return cls(samples=tbl)", "read() drops table metadata kwargs")
